@@ -230,6 +230,24 @@ CHECKS["C07"] = (
     "DESIGN.md 3 (C07)",
 )
 
+CHECKS["C05"] = (
+    "Coq proof (lists, Z, on the task list regenerated from utils.py): batching invariance for every n_batches and any contiguous cover; generated "
+    "kernel preludes identical on all paths; metamorphic bit-identity runs over every execution path with Coq-certified batching predictions; generated "
+    "kernel model started from a junk state",
+    "Proved: for every library, every per-row function and every n_batches >= 1 (more batches than rows included) evaluating batch by batch with "
+    "batch_tasks' own task list (Gen/BatchTasksGen.v) and concatenating in task order equals the per-row values in input order -- also for explicit "
+    "index arrays and any contiguous cover; the three kernel entry points rebuild the per-sample state with one prelude. Per run: a library is "
+    "evaluated in memory, through the cache, by file name, with n_batches in {None,2,3,N-1,N+5} (thorough adds 1,N,N+1), on a 2-process pool, after "
+    "unrelated marginal/posterior calls on the same sampler, on the helper after posterior/test calls, through a dill-pickled helper, row by row and "
+    "reversed: all bit-identical and in input order; Coq certifies each batched result against the batching model; rows are tied to the generated "
+    "kernel model, which is run from a state whose every scratch cell holds junk (a cell read before it is written, i.e. dependence on earlier "
+    "calls, shows as a disagreement with the closed form); accepted sets equal for equal seeds across paths. Partial: history independence of the "
+    "generated loops is certified per input (junk state), not proved for all inputs; process scheduling is exercised, not modelled.",
+    "Trusted: Coq kernel + vm_compute; translators py2v_batch / pyx2v (fail-closed); schwimmbad pool.map order; dill for pickling the helper (stdlib "
+    "pickle cannot serialise pymc objects here, the test-suite uses dill too).",
+    "DESIGN.md 3 (C05)",
+)
+
 NOT_YET = {}
 
 
